@@ -66,12 +66,12 @@ def make_progset(env, P, interaction, pops):
     return ps, sym, outcomes
 
 
-def body_factory(interaction="additive", start=2000.25, stop=None, overwrite=None, pops=1, T=3, junction_init=False):
+def body_factory(interaction="additive", start=2000.25, stop=None, overwrite=None, pops=1, T=3, junction_init=False, model="M12"):
     def body(env):
         am, ap, au, apar, afp = mr.modules()
         import atomica.results as ares
 
-        P = project("M12", T, 0.25, pops=pops)
+        P = project(model, T, 0.25, pops=pops)
         F = P.framework
         popnames = [p for p in P.parsets[0].pop_names]
         parset = copy.deepcopy(P.parsets[0])
@@ -213,6 +213,17 @@ def body_factory(interaction="additive", start=2000.25, stop=None, overwrite=Non
                                 env.claim("stored_value_matches_specification|%s|%s|t%d" % (pname, pop.name, ti), env.eq(par.vals[ti], clip_spec(env, conv(spec_v), lo, hi)), key="matches_spec[%s]" % pname)
                         else:
                             env.claim("data_value_when_not_overwritten|%s|%s|t%d" % (pname, pop.name, ti), env.eq(par.vals[ti], clip_spec(env, dval, lo, hi)), key="not_overwritten[%s]" % pname)
+                    # ---- function parameters downstream of a targeted parameter follow the *stored* (overwritten) value of the same step
+                    for pname in F.pars.index:
+                        fcn = F.pars.at[pname, "function"]
+                        if isinstance(fcn, str) and fcn.strip() and pname in pop.par_lookup:
+                            from checks.C06 import eval_fn
+                            import ast as real_ast
+
+                            deps = {n.id for n in real_ast.walk(real_ast.parse(fcn, mode="eval")) if isinstance(n, real_ast.Name)}
+                            if all(d in pop.par_lookup for d in deps):
+                                v = eval_fn(env, fcn, {d: pop.par_lookup[d].vals[ti] for d in deps})
+                                env.claim("function_of_same_step_values|%s|%s|t%d" % (pname, pop.name, ti), env.eq(pop.par_lookup[pname].vals[ti], clip_spec(env, v, F.pars.at[pname, "minimum value"], F.pars.at[pname, "maximum value"])), key="function_follows_program[%s]" % pname)
 
     return body
 
@@ -230,6 +241,7 @@ def specs(tier):
         ("programs[random;start=2000.3(offgrid);stop=2000.5]", dict(interaction="random", start=2000.3, stop=2000.5)),
         ("programs[nested;start=2000.0]", dict(interaction="nested", start=2000.0)),
         ("programs[additive;start=2000.0;initial junction contents]", dict(interaction="additive", start=2000.0, junction_init=True)),
+        ("programs[additive;start=2000.25;function chain below a targeted parameter]", dict(interaction="additive", start=2000.25, model="M12c")),
         ("programs[additive;alloc overwrite]", dict(interaction="additive", start=2000.25, overwrite="alloc")),
         ("programs[additive;capacity overwrite]", dict(interaction="additive", start=2000.25, overwrite="capacity")),
         ("programs[additive;coverage overwrite]", dict(interaction="additive", start=2000.25, overwrite="coverage")),
